@@ -99,9 +99,9 @@ def asaApplyBody : Sess :=
   asaCmd .setup (.lit "configure terminal") ["configure terminal"] ;;
   .forEach (asaCmd .change .cur ["_"]) ;;
   asaCmd .setup (.lit "end") ["end"] ;;
-  GetCmdOutput .save (.lit "write memory") ["write memory"] ;;
-  .ite (.not (.flag .okMark)) "!strings.Contains(out, \"[OK]\")"
-    (.abort ["Command 'write memory' failed, missing [OK] in output:\n%s", "_"]) .skip ;;
+  (GetCmdOutput .save (.lit "write memory") ["write memory"] ;;
+   .ite (.not (.flag .okMark)) "!strings.Contains(out, \"[OK]\")"
+     (.abort ["Command 'write memory' failed, missing [OK] in output:\n%s", "_"]) .skip) ;;
   .ret .nil ["nil"]
 
 /-- cisco.LoginEnable (shared by ASA and IOS). -/
